@@ -109,6 +109,39 @@ fn eval_inner(name: &str, cp: u32) -> Option<String> {
                 Err(_) => "err".to_string(),
             }
         }
+        "dir_p1" | "dir_n1" | "width_p" | "case_p" | "nickmap_trail" => {
+            // probes for state carried ACROSS characters (a remembered table position, a cached neighbour): every code
+            // point c directly after its predecessor / successor code point, after a mapped character, before a trailing
+            // run of spaces.  In the result c is written "c" and its neighbour "p" so that runs compress.
+            use precis_core::profile::Rules;
+            let c = ch?;
+            let cpv = c as u32;
+            let prev = if cpv == 0 { None } else if cpv == 0xE000 { char::from_u32(0xD7FF) } else { char::from_u32(cpv - 1) };
+            let next = if cpv == 0x10FFFF { None } else if cpv == 0xD7FF { char::from_u32(0xE000) } else { char::from_u32(cpv + 1) };
+            let nb = if name == "dir_n1" { next } else if name == "nickmap_trail" { None } else { prev };
+            let fmt = |t: &str| t.chars().map(|x| if x == c { "c".to_string() } else if Some(x) == nb { "p".to_string() } else { format!("{:04X}", x as u32) }).collect::<Vec<_>>().join(" ");
+            match name {
+                "dir_p1" | "dir_n1" => {
+                    let s: String = nb.into_iter().chain([c]).collect();
+                    match precis_profiles::UsernameCasePreserved::new().directionality_rule(s.as_str()) {
+                        Ok(t) => if t == s { "ok".to_string() } else { "changed".to_string() },
+                        Err(_) => "err".to_string(),
+                    }
+                }
+                "width_p" => {
+                    let s: String = ['\u{ff21}'].into_iter().chain(nb).chain([c]).collect();
+                    match precis_profiles::UsernameCasePreserved::new().width_mapping_rule(s.as_str()) { Ok(t) => fmt(&t), Err(_) => "err".to_string() }
+                }
+                "case_p" => {
+                    let s: String = ['A'].into_iter().chain(nb).chain([c]).collect();
+                    match precis_profiles::UsernameCaseMapped::new().case_mapping_rule(s.as_str()) { Ok(t) => fmt(&t), Err(_) => "err".to_string() }
+                }
+                _ => {
+                    let s: String = ['a', c, ' ', ' '].iter().collect();
+                    match precis_profiles::Nickname::new().additional_mapping_rule(s.as_str()) { Ok(t) => fmt(&t), Err(_) => "err".to_string() }
+                }
+            }
+        }
         "zs" => b(prof_hooks::is_space_separator(ch?)),
         "nonascii_zs" => b(prof_hooks::is_non_ascii_space(ch?)),
         "std_upper" => b(ch?.is_uppercase()),
